@@ -133,6 +133,12 @@ func c14(c *Ctx) {
 	if k := emitOrderRule(c, "codecs.(*H265Payloader).Payload"); k == 0 {
 		r.Infof("STRUCT.emitorder: H265Payloader.Payload is not built from a flush closure and a callback that appends to the result: not decided")
 	}
+	if k := minFoldRule(c, "codecs.(*H265Payloader).Payload", map[string]bool{"codecs.(H265NALUHeader).LayerID": true, "codecs.(H265NALUHeader).TID": true},
+		"aggregation header"); k == 0 {
+		r.Infof("FOLD.min: no LayerID()/TID() result is compared with a value carried round a loop in H265Payloader.Payload: the lowest-LayerId/lowest-TID clause is not decided")
+	} else {
+		r.Infof("FOLD.min: %d running-minimum fold(s) over the aggregated units checked", k)
+	}
 	na := 0
 	restructured := false
 	for _, nme := range []string{"codecs.(*H265AggregationPacket).Unmarshal", "codecs.(*H265SingleNALUnitPacket).Unmarshal", "codecs.(*H265FragmentationUnitPacket).Unmarshal", "codecs.(*H265PACIPacket).Unmarshal"} {
